@@ -202,7 +202,7 @@ def make_bank(rng, fmt, decorated, sep, quick=True, unispace=True, big=False):
         k = rng.randint(150, 260)
     cont = fmt == 'brackets'
     bank = []
-    sid = rng.choice([1, 1, 5, 100])
+    sid = rng.choice([1, 1, 5, 100, 0])
     for j in range(k):
         n = rng.choice([1, 1, 2, 3, 5, 8]) if rng.random() < 0.6 \
             else rng.randint(1, 14)
